@@ -86,3 +86,76 @@ func runLargeCountHistories() {
 			l.Distinct("nontrivial", fmt.Sprint("largehist", x.f, x.seq))
 		})
 }
+
+// runManyErrors: error COUNTS on both sides of 2^8, 2^9, 2^10 and 2^11 - only the two large fields
+// have code words long enough to carry that many errors within the design distance. Error positions
+// are spread over the whole word (stride coprime to the length), magnitudes vary.
+func runManyErrors() {
+	type job struct{ f, k, r, t int }
+	var jobs []job
+	for _, t := range []int{255, 256, 257, 500} {
+		jobs = append(jobs, job{4, 20, 1001, t})
+	}
+	for _, t := range []int{255, 256, 257, 511, 512, 513, 1023, 1024, 1025, 1050} {
+		jobs = append(jobs, job{5, 1000, 2100, t})
+	}
+	if !chk.Quick() {
+		for _, t := range []int{1026, 1500, 2000} {
+			jobs = append(jobs, job{5, 90, 4001, t})
+		}
+	}
+	chk.Range("many errors: GF(1024) (20 data + 1001 parity) with {255,256,257,500} errors, GF(4096) (1000 + 2100) with {255..257, 511..513, 1023..1025, 1050} errors (thorough: 90 + 4001 with up to 2000): every word restored", len(jobs),
+		func(i int) string { return fmt.Sprint(jobs[i]) },
+		func(l *mc.Local, i int) {
+			j := jobs[i]
+			f := fields[j.f]
+			data := make([]int, j.k)
+			for q := range data {
+				data[q] = (q*131 + j.t) % f.ref.Size
+			}
+			word := append(append([]int{}, data...), f.ref.Parity(data, j.r, f.base)...)
+			n := len(word)
+			stride := 7
+			for gcdInt(stride, n) != 1 {
+				stride += 2
+			}
+			rcv := append([]int{}, word...)
+			pos := make([]int, 0, j.t)
+			for e := 0; e < j.t; e++ {
+				p := (e*stride + 3) % n
+				pos = append(pos, p)
+				rcv[p] ^= 1 + (e*37+5)%(f.ref.Size-1)
+			}
+			var err error
+			l.Beat("")
+			pm, site := mc.Guard(func() {
+				if e := rs.NewReedSolomonDecoder(f.lib).Decode(rcv, j.r); e != nil {
+					err = e
+				}
+			})
+			l.Count("evaluations", 1)
+			cs := rsCase{f.name, j.k, j.r, nil, pos[:8], nil}
+			if pm != "" {
+				chk.Violation("C04/rs/decode/panic/"+site, pm, cs)
+				return
+			}
+			bad := err != nil
+			for q := range word {
+				if rcv[q] != word[q] {
+					bad = true
+				}
+			}
+			if bad {
+				chk.Violation("C04/rs/decode/many-errors/"+f.name, fmt.Sprintf("%d data + %d parity symbols with %d <= floor(%d/2) errors (positions 3 + e*%d mod %d): not restored (err=%v)", j.k, j.r, j.t, j.r, stride, n, err), cs)
+				return
+			}
+			l.Distinct("nontrivial", fmt.Sprint("many", j))
+		})
+}
+
+func gcdInt(a, b int) int {
+	for b != 0 {
+		a, b = b, a%b
+	}
+	return a
+}
